@@ -348,13 +348,13 @@ def _valid(e, cond, timeout=20000):
     return s.check() == z3.unsat
 
 
-def build_rect(e, nx, ny, nz, atm, convention, nsurf, block_order=None):
+def build_rect(e, nx, ny, nz, atm, convention, nsurf, block_order=None, origin=None):
     """A real rectangular geometry (mulgrid.rectangular run by the executor) with symbolic spacings and origin,
     and symbolic surfaces on the first `nsurf` columns.  Returns (geo, spec) where spec holds the quantities the
     statement talks about, computed from the inputs (not from the code)."""
     m = e.load_module('mulgrids').globals
     dx = [e.sym_real('dx%d' % k) for k in range(nx)]; dy = [e.sym_real('dy%d' % k) for k in range(ny)]; dz = [e.sym_real('dz%d' % k) for k in range(nz)]
-    org = [3, -7, e.sym_real('oz')]           # horizontal origin concrete (the centroid formula is quadratic in it); elevation origin symbolic
+    org = list(origin) if origin is not None else [3, -7, e.sym_real('oz')]           # horizontal origin concrete (the centroid formula is quadratic in it); elevation origin symbolic
     for v in dx + dy + dz:
         e.assume(v > 0)
     g0 = e.call(m['mulgrid'], [])
